@@ -11,7 +11,7 @@
 //        kind: map multimap set multiset bag cset mapcount
 //        flags: 1 pre-populated target, 2 barrier before serialize (otherwise the inserts
 //        are still pending), 4 strings may contain NUL, 8 only rank 0 inserts, 16 non-empty
-//        default value, 32 short alphabet (many duplicates / shared prefixes)
+//        default value, 32 short alphabet (many duplicates / shared prefixes), 64 directed: exactly the keys "a\\0b" and "a\\0c"
 //   tok  <hex token> ...                      cereal JSONInputArchive on `{"value0": <token>}`
 #include "hcommon.hpp"
 #include <ygm/comm.hpp>
@@ -254,7 +254,9 @@ static int run_ser_t(ygm::comm& world, uint64_t seed, long nitems, int flags, Ct
   size_t my_inserts = 0;
   {
     A a(world, dv...);
-    if (!(flags & 8) || world.rank0())
+    if (flags & 64) {                // directed minimal content: two keys that differ only after a NUL byte
+      if (world.rank0()) { insert_one(a, std::string("a\0b", 3), 1); insert_one(a, std::string("a\0c", 3), 2); my_inserts = 2; }
+    } else if (!(flags & 8) || world.rank0())
       for (long i = 0; i < nitems; ++i) {
         std::string k = mine.below(2) ? pool[mine.below(pool.size())] : gen_str(mine, flags);
         insert_one(a, k, mine.below(1000)); ++my_inserts;
@@ -263,6 +265,7 @@ static int run_ser_t(ygm::comm& world, uint64_t seed, long nitems, int flags, Ct
     a.serialize(fname);            // otherwise: the inserts above are still pending here
     hc::out("file " + hex(slurp(fname + std::to_string(world.rank()))));
     dump(a, "a");
+    world.cf_barrier();            // for_all = barrier + local iteration: nobody may issue anything new before everybody has iterated
   }
   {
     B b(world);
@@ -278,6 +281,7 @@ static int run_ser_t(ygm::comm& world, uint64_t seed, long nitems, int flags, Ct
     }
     b.deserialize(fname);
     dump(b, "b");
+    world.cf_barrier();
     // the extra member: default value (maps), round-robin cursor (bag), default count (counting_set)
     if constexpr (std::is_same_v<B, SMap> || std::is_same_v<B, SMMap>) hc::out("extra " + hex(b.default_value()));
     else if constexpr (std::is_same_v<B, CMap>) hc::out("extra " + std::to_string(b.default_value()));
